@@ -134,8 +134,8 @@ h_addsub_assign!(c01_q_add_bvd2_u128, 4, bvd2(anylen(128)), iu128(), +=, add);
 h_addsub_assign!(c01_q_sub_bvd2_u64, 4, bvd2(anylen(128)), iu64(), -=, sub);
 h_addsub_assign!(c01_q_sub_bvd2_u8, 9, bvd2(anylen(128)), iu8(), -=, sub);
 h_addsub_assign!(c01_t_add_bvd3_bvd2, 5, bvd3(anylen(192)), bvd2(anylen(128)), +=, add);
-h_addsub_assign!(c01_t_sub_bvd3_bvd2, 5, bvd3(anylen(192)), bvd2(anylen(128)), -=, sub);
-h_addsub_assign!(c01_t_add_bvd3_bvd3, 5, bvd3(anylen(192)), bvd3(anylen(192)), +=, add);
+h_addsub_assign!(c01_q_sub_bvd3_bvd2, 5, bvd3(anylen(192)), bvd2(anylen(128)), -=, sub);
+h_addsub_assign!(c01_q_add_bvd3_bvd3, 5, bvd3(anylen(192)), bvd3(anylen(192)), +=, add);
 h_addsub_assign!(c01_t_sub_bvd3_f64x3, 5, bvd3(anylen(192)), f64x3(anylen(192)), -=, sub);
 h_addsub_assign!(c01_t_add_bvd3_f128x2, 5, bvd3(anylen(192)), f128x2(anylen(256)), +=, add);
 h_addsub_assign!(c01_t_sub_bvd1_bvd2, 4, bvd1(anylen(64)), bvd2(anylen(128)), -=, sub);
